@@ -215,4 +215,121 @@ theorem crossingChildExchange_agree (now : Nat) (ca0 cb0 : Child) (rka rkb : Opt
     simp only [List.append_assoc, List.cons_append, List.nil_append]
     exact List.Perm.append_left _ (List.Perm.swap _ _ _)
 
+/-! ### deletes that cross, of different CHILD_SAs -/
+
+theorem childEq_false_of_inSpi {x y : Child} (h : x.inSpi ≠ y.inSpi) : childEq x y = false := by
+  cases hc : childEq x y with
+  | false => rfl
+  | true =>
+    have := childEq_view hc
+    simp only [Child.view, Prod.mk.injEq] at this
+    exact absurd this.1 h
+
+theorem mem_removeKid_of_ne {ks : List Child} {c x : Child} (hx : x ∈ ks) (hne : c.inSpi ≠ x.inSpi) : x ∈ removeKid ks c := by
+  unfold removeKid
+  rw [List.mem_eraseP_of_neg (by rw [childEq_false_of_inSpi hne]; decide)]
+  exact hx
+
+/-- both ends delete a CHILD_SA at the same time — different ones: each end removes the one the other names when the request arrives,
+    and its own when the answer arrives; both CHILD_SAs are gone at both ends, which agree again -/
+theorem crossingDeleteDifferent_agree (ca cb ca' cb' : Child) (a b : HSt) (h : Agree a b)
+    (ha : ca ∈ a.me.ext.kids) (hb : cb ∈ b.me.ext.kids) (ha' : ca' ∈ b.me.ext.kids) (hb' : cb' ∈ a.me.ext.kids)
+    (hva : ca.view = ca'.peerView) (hvb : cb.view = cb'.peerView) (hdiff : ca.inSpi ≠ cb'.inSpi) :
+    ∃ a3 b3, crossingDeleteExchange ca cb a b = some (a3, b3) ∧ Agree a3 b3 ∧
+      a3.me.ext.kids = removeKid (removeKid a.me.ext.kids cb') ca ∧ b3.me.ext.kids = removeKid (removeKid b.me.ext.kids ca') cb := by
+  have hpa := h.protoa ca ha
+  have hpb := h.protob cb hb
+  have hpa' : ca'.proposal.proto = ca.proposal.proto := by
+    simp only [Child.view, Child.peerView, Prod.mk.injEq] at hva; exact hva.2.2.symm
+  have hpb' : cb'.proposal.proto = cb.proposal.proto := by
+    simp only [Child.view, Child.peerView, Prod.mk.injEq] at hvb; exact hvb.2.2.symm
+  -- the other kid of each end is a different record
+  have hdiffb : cb.inSpi ≠ ca'.inSpi := by
+    intro he
+    apply hdiff
+    -- ca' and cb are the same record of b (same inbound SPI), so their images ca and cb' are the same record of a
+    have : cb = ca' := eq_of_nodup_map Child.inSpi _ h.ndb hb ha' he
+    subst this
+    have hv : ca.view = cb'.view := by
+      have h1 := view_eq_peerView_symm hva   -- cb.view = ca.peerView
+      have h2 := hvb                          -- cb.view = cb'.peerView
+      have : ca.peerView = cb'.peerView := h1.symm.trans h2
+      simp only [Child.view, Child.peerView, Prod.mk.injEq] at this ⊢
+      exact ⟨this.2.1, this.1, this.2.2⟩
+    simp only [Child.view, Prod.mk.injEq] at hv; exact hv.1
+  have hga := generateDeleteChildSaRequest_eq ca a h.sta
+  have hgb := generateDeleteChildSaRequest_eq cb b h.stb
+  generalize hA1 : generateDeleteChildSaRequest ca a = ga at hga
+  generalize hB1 : generateDeleteChildSaRequest cb b = gb at hgb
+  obtain ⟨ra, a1⟩ := ga
+  obtain ⟨rb, b1⟩ := gb
+  obtain ⟨hra, ha1⟩ := Prod.mk.inj hga
+  obtain ⟨hrb, hb1⟩ := Prod.mk.inj hgb
+  have ka1 : a1.me.ext.kids = a.me.ext.kids := by rw [ha1]
+  have kb1 : b1.me.ext.kids = b.me.ext.kids := by rw [hb1]
+  have sa1 : a1.me.core.st = stDEL_CHILD_REQ_SENT := by rw [ha1]
+  have sb1 : b1.me.core.st = stDEL_CHILD_REQ_SENT := by rw [hb1]
+  have da1 : a1.me.ext.deleting = some ca := by rw [ha1]
+  have db1 : b1.me.ext.deleting = some cb := by rw [hb1]
+  have hkb : getKidOut b1.me.ext.kids ca.inSpi = some ca' := by rw [kb1]; exact h.mirror.lookup_eq h.nda ca ca' ha ha' hva
+  have hka : getKidOut a1.me.ext.kids cb.inSpi = some cb' := by
+    rw [ka1]; exact h.mirror.symm.lookup_eq h.ndb cb cb' hb hb' hvb
+  have hreqB := processInformationalRequest_delete a.me.core ca.proposal.proto ca.inSpi b1 ca' (by rw [sb1]; decide) hpa hkb hpa'
+  have hreqA := processInformationalRequest_delete b.me.core cb.proposal.proto cb.inSpi a1 cb' (by rw [sa1]; decide) hpb hka hpb'
+  have hca'1 : ca' ∈ b1.me.ext.kids := by rw [kb1]; exact ha'
+  have hcb'1 : cb' ∈ a1.me.ext.kids := by rw [ka1]; exact hb'
+  have hub := untrackChild_mem ca' b1 hca'1
+  have hua := untrackChild_mem cb' a1 hcb'1
+  generalize hB2 : (untrackChild ca' b1).2 = b2 at hreqB
+  generalize hA2 : (untrackChild cb' a1).2 = a2 at hreqA
+  rw [hub] at hB2; rw [hua] at hA2; dsimp only at hB2 hA2
+  have ka2 : a2.me.ext.kids = removeKid a.me.ext.kids cb' := by rw [← hA2]; simp [XSa.setKids, ka1]
+  have kb2 : b2.me.ext.kids = removeKid b.me.ext.kids ca' := by rw [← hB2]; simp [XSa.setKids, kb1]
+  have sa2 : a2.me.core.st = stDEL_CHILD_REQ_SENT := by rw [← hA2]; simp [XSa.setKids, sa1]
+  have sb2 : b2.me.core.st = stDEL_CHILD_REQ_SENT := by rw [← hB2]; simp [XSa.setKids, sb1]
+  have da2 : a2.me.ext.deleting = some ca := by rw [← hA2]; simp [XSa.setKids, da1]
+  have db2 : b2.me.ext.deleting = some cb := by rw [← hB2]; simp [XSa.setKids, db1]
+  -- the answers: each end still has the CHILD_SA it asked to delete, and removes it now
+  have hca2 : ca ∈ a2.me.ext.kids := by rw [ka2]; exact mem_removeKid_of_ne ha (Ne.symm hdiff)
+  have hcb2 : cb ∈ b2.me.ext.kids := by rw [kb2]; exact mem_removeKid_of_ne hb (Ne.symm hdiffb)
+  have hra3 := processInformationalResponse_delete b2.me.core [(ca.proposal.proto, [ca'.inSpi])] a2 ca sa2 da2
+  have hrb3 := processInformationalResponse_delete a2.me.core [(cb.proposal.proto, [cb'.inSpi])] b2 cb sb2 db2
+  simp only [List.map_cons, List.map_nil] at hra3 hrb3
+  have ka3 : (setState stESTABLISHED (untrackChild ca a2).2).2.me.ext.kids = removeKid (removeKid a.me.ext.kids cb') ca := by
+    rw [untrackChild_mem ca a2 hca2]; simp only [setState, modCore, HM.modify, XSa.setKids, ka2]
+  have kb3 : (setState stESTABLISHED (untrackChild cb b2).2).2.me.ext.kids = removeKid (removeKid b.me.ext.kids ca') cb := by
+    rw [untrackChild_mem cb b2 hcb2]; simp only [setState, modCore, HM.modify, XSa.setKids, kb2]
+  refine ⟨(setState stESTABLISHED (untrackChild ca a2).2).2, (setState stESTABLISHED (untrackChild cb b2).2).2, ?_, ?_, ka3, kb3⟩
+  · unfold crossingDeleteExchange
+    rw [hA1, hB1]; subst hra; subst hrb; dsimp only
+    rw [hreqB, hreqA]; dsimp only
+    rw [hra3, hrb3]
+  · -- agreement: two pairs removed
+    have h1 : Half (removeKid a.me.ext.kids cb') (removeKid b.me.ext.kids cb) :=
+      h.done.half.remove cb' cb hb' hb (view_eq_peerView_symm hvb)
+    have hca'2 : ca' ∈ removeKid b.me.ext.kids cb := mem_removeKid_of_ne ha' hdiffb
+    have hca3 : ca ∈ removeKid a.me.ext.kids cb' := mem_removeKid_of_ne ha (Ne.symm hdiff)
+    have h2 := h1.remove ca ca' hca3 hca'2 hva
+    -- the responder removed them in the other order
+    have hcomm : removeKid (removeKid b.me.ext.kids cb) ca' = removeKid (removeKid b.me.ext.kids ca') cb := by
+      unfold removeKid
+      apply List.eraseP_comm
+      intro x _
+      by_cases h1 : childEq cb x = true
+      · right; intro h2
+        have e1 := childEq_view h1
+        have e2 := childEq_view h2
+        simp only [Child.view, Prod.mk.injEq] at e1 e2
+        exact hdiffb (e1.1.trans e2.1.symm)
+      · left; exact h1
+    refine ⟨by simp [setState, modCore, HM.modify], by simp [setState, modCore, HM.modify], ?_, ?_, ?_, ?_, ?_, ?_⟩
+    all_goals try rw [ka3]
+    all_goals try rw [kb3]
+    · rw [← hcomm]; exact h2.mirror
+    · exact h2.nda
+    · exact removeKid_nodup _ _ (removeKid_nodup _ _ h.ndb)
+    · exact h2.protoa
+    · rw [← hcomm]; exact h2.protob
+    · rw [← hcomm]; exact h2.paired
+
 end PyIkev2.Impl
